@@ -1,6 +1,7 @@
 package eng
 
 import (
+	"strconv"
 	"sort"
 	"fmt"
 	"go/types"
@@ -210,6 +211,23 @@ func (sc *SCtx) ident(name string) (Val, error) {
 		}
 		if v, ok := sc.g.ghostVals[name]; ok {
 			return v, nil
+		}
+		// callres_<Func>_<k>[_<i>]: the (i-th) result of the k-th contract-carrying call
+		// of Func made so far in this function
+		if strings.HasPrefix(name, "callres_") && sc.g.callRes != nil {
+			if v, ok := sc.g.callRes[name]; ok {
+				if v.K == VTuple && len(v.F) == 1 {
+					return v.F[0], nil
+				}
+				return v, nil
+			}
+			if i := strings.LastIndex(name, "_"); i > 0 {
+				if v, ok := sc.g.callRes[name[:i]]; ok && v.K == VTuple {
+					if n, err := strconv.Atoi(name[i+1:]); err == nil && n >= 0 && n < len(v.F) {
+						return v.F[n], nil
+					}
+				}
+			}
 		}
 		// source-level locals are visible only to loop invariants (and closures see
 		// their captured variables); elsewhere a stray name must not bind silently
